@@ -169,7 +169,8 @@ func configurePipe(c *harness.Ctx, p *simnet.Pipe, label string) map[string]inte
 	p.MaxRead = []int{0, 0, 1, 7, 1427, 1448, 1449, 4096}[t.Draw(label+".maxread", 8)]
 	lat := []int{0, 0, 1, 50}[t.Draw(label+".lat", 4)]
 	p.Latency = msec(lat)
-	return map[string]interface{}{"chunk": simnet.ChunkNames[p.Policy], "lazy": p.Lazy, "maxread": p.MaxRead, "latency_ms": lat}
+	p.ErrWithData = t.Draw(label+".errwithdata", 4) == 3
+	return map[string]interface{}{"chunk": simnet.ChunkNames[p.Policy], "lazy": p.Lazy, "maxread": p.MaxRead, "latency_ms": lat, "err_with_data": p.ErrWithData}
 }
 
 var _ = rand.Reader
